@@ -3,7 +3,7 @@
 # for all conflict hunks at once, union (ours then theirs) / theirs / ours, keeping the first resolution that builds, keeps the
 # suite green and makes the demo fail.
 export GOFLAGS=-mod=mod GOPROXY=off GOSUMDB=off GOTOOLCHAIN=local
-W=/tmp/sb/C01; H=$(git -C /repo rev-parse HEAD)
+W=/tmp/sb/RB; H=$(git -C /repo rev-parse HEAD)
 cd $W || exit 2
 for strat in smart union theirs ours union-rev; do
   git checkout -q -f --detach $H; git clean -fdq
